@@ -160,6 +160,10 @@ def main(argv):
     import tensorflow as tf
     tf.random.set_seed(seed)
     try:
+      tf.debugging.disable_traceback_filtering()   # keep repository frames visible in tracebacks
+    except Exception:  # pylint: disable=broad-except
+      pass
+    try:
       tf.config.threading.set_intra_op_parallelism_threads(1)
       tf.config.threading.set_inter_op_parallelism_threads(1)
     except RuntimeError:
